@@ -24,8 +24,11 @@ NAMES['OP_FALSE'] = 0; NAMES['FALSE'] = 0; NAMES['OP_TRUE'] = 0x51; NAMES['TRUE'
 
 def obligations(tier, seed):
     obs = []
-    def add(tokens, sv, lens, vf=(0, None), symhex=0, symdec=0, tag='', label=None):
-        obs.append(dict(name='eval/%s/sv%d/st%s/vf%d-%s%s' % (label or ' '.join(tokens), sv, '.'.join(map(str, lens)), vf[0], vf[1], tag), tokens=tokens, sv=sv, lens=lens, vf=vf, symhex=symhex, symdec=symdec))
+    def add(tokens, sv, lens, vf=(0, None), symhex=0, symdec=0, tag='', label=None, allow=0):
+        obs.append(dict(name='eval/%s/sv%d/st%s/vf%d-%s%s' % (label or ' '.join(tokens), sv, '.'.join(map(str, lens)), vf[0], vf[1], tag), tokens=tokens, sv=sv, lens=lens, vf=vf, symhex=symhex, symdec=symdec, allow=allow))
+    import C17
+    for sv in (R.BASE, R.WITNESS_V0):
+        for n, k in C17.ARITY.items(): add([n], sv, tuple([1] * k), tag='/allow-disabled', allow=1)
     for sv in (R.BASE, R.WITNESS_V0, R.TAPSCRIPT):
         for n, v in sorted(NAMES.items()):
             if v in R.SIGOPS or n in ('OP_CODESEPARATOR', 'CODESEPARATOR'): continue
@@ -70,9 +73,9 @@ def build(ob, V=None):
             toks.append(cs)
         else: toks.append(list(t.encode()))
     flags = var('flags', 32); nop = var('nop', 32)
-    if sym: assume.append(z3.ULE(nop, 190))
+    if sym: assume.append(z3.ULE(nop, 201))          # up to the limit: an exec'd operation is counted like a script operation (seed C16-4)
     pre = dict(alt=alt, vf=ob['vf'], nop=nop, pc=1, pbch=0, opcode_pos=1, codesep=0xffffffff, curr_op_seq=1, hist=[([[7]], [], 0, 5)])
-    req = sesslib.sess_request(6, flags, ob['sv'], stack, script, 0, 0, (0, 0, 0), pre, tokens=toks)
+    req = sesslib.sess_request(6, flags, ob['sv'], stack, script, ob.get('allow', 0), 0, (0, 0, 0), pre, tokens=toks)
     inputs = dict(flags=flags, nop=nop, stack=stack, alt=alt, tchars=tchars)
     return req, inputs, assume, toks, dict(stack=stack, alt=alt, nop=nop, flags=flags, script=script)
 
@@ -112,7 +115,8 @@ def ref_eval(ctx, ob, toks, P):
     S = R.RS(stack=P['stack'], alt=P['alt'], vf_size=ob['vf'][0], vf_ff=ob['vf'][1], nop=P['nop'], flags=P['flags'], sigversion=ob['sv'], script=[], pc=0)
     for kind, v in ops:
         if kind == 'op':
-            if v in R.SIGOPS or v == 0xab or v in R.DISABLED: raise refexec.RefAbort('opcode outside C16 reference')
+            if v in R.SIGOPS or v == 0xab: raise refexec.RefAbort('opcode outside C16 reference')
+            S.allow_disabled = bool(ob.get('allow', 0))          # the re-enabled opcodes through exec: gated exactly like script operations
             S.script = [v]; S.pc = 0
             r = R.ref_step(ctx, S)
         else:
